@@ -357,10 +357,18 @@ pub fn run(tier: Tier) -> i32 {
             } else {
                 &seqs[si]
             };
-            let b = match make(k, *form, *base, *d, seq, mode) {
+            let mut b = match make(k, *form, *base, *d, seq, mode) {
                 Some(b) => b,
                 None => continue,
             };
+            // the target's name: also names that begin like a register or a pointer register
+            {
+                const NAMES: [(&str, &str); 9] = [("target_l", "Target_L"), ("r2_done", "R2_Done"), ("r1loop", "R1LOOP"), ("r100", "R100"), ("zero_l", "Zero_L"), ("x_lab", "X_Lab"), ("y2k", "Y2K"), ("zed", "ZED"), ("r31x", "R31X")];
+                let (lo, up) = NAMES[(wi + rep_i as usize) % NAMES.len()];
+                if lo != "target_l" {
+                    b.src = b.src.replace("target_l", lo).replace("Target_L", up);
+                }
+            }
             // on the 4 K-word device everything that is emitted must lie inside its flash
             if *base >= 5 {
                 let flash = DEV_BASES[*base - 5].1;
